@@ -1,4 +1,4 @@
-(* NEEDS: SelfCal/AutoReplay.vo SelfCal/WeightModel.vo SelfCal/TrlQI.vo SelfCal/DispatchModel.vo SelfCal/TrlTermsQI.vo SelfCal/GuardModel.vo *)
+(* NEEDS: SelfCal/AutoReplay.vo SelfCal/WeightModel.vo SelfCal/TrlQI.vo SelfCal/DispatchModel.vo SelfCal/TrlTermsQI.vo SelfCal/GuardModel.vo SelfCal/C18MErrorModel.vo *)
 (* Extraction of the executable self-calibration models (AutoLoop replay kernel, weight-vector
    indexing).  Only ExtrOcamlBasic's directives are in effect. *)
 Require Extraction.
@@ -7,6 +7,7 @@ Require Import List ZArith QArith Qcanon.
 Require Import LV.Base.CField LV.Base.QcI LV.SelfCal.AutoLoop LV.SelfCal.AutoReplay LV.SelfCal.WeightModel.
 Require Import LV.SelfCal.TrlModel LV.SelfCal.TrlQI LV.SelfCal.DispatchModel.
 Require Import LV.SelfCal.TrlTermsModel LV.SelfCal.TrlTermsQI LV.SelfCal.GuardModel.
+Require Import LV.SelfCal.C18MErrorModel.
 
 (* the checked-memory walks over integer markers *)
 Definition n_update_s := update_s_matrices nat.
@@ -19,6 +20,12 @@ Definition n_init_vvec := init_vvec nat.
 Definition n_calc_weights := calc_weights nat nat S O.
 Definition n_simple_index := simple_index nat.
 Definition n_auto_index := auto_index nat.
+(* w_offset as the loop of solve_simple computes it, and the closed-form model variant *)
+Definition n_simple_index_loop := simple_index_loop nat.
+Definition n_simple_index_closed := simple_index_closed nat.
+Definition n_running_offsets := running_offsets nat.
+(* vnacal_new_set_m_error as a state machine over numbered values (0 = 0.0) *)
+Definition n_merr_run := run nat O.
 
 Extraction Language OCaml.
 Set Extraction KeepSingleton.
@@ -30,4 +37,7 @@ Extraction "models_selfcal.ml"
   dof
   dispatch
   q_trl_rows_t q_trl_rows_u
-  n_update_s n_save_v n_restore_v n_init_vvec.
+  n_update_s n_save_v n_restore_v n_init_vvec
+  n_simple_index_loop n_simple_index_closed n_running_offsets
+  leak_count dof_of_standards
+  n_merr_run.
